@@ -205,6 +205,12 @@ func Not(a *Term) *Term {
 		return True
 	case a.Op == "not":
 		return a.Args[0]
+	case a.Op == "or":
+		ns := make([]*Term, len(a.Args))
+		for i, x := range a.Args {
+			ns[i] = Not(x)
+		}
+		return And(ns...)
 	}
 	return mk("not", BoolSort, a)
 }
